@@ -49,14 +49,15 @@ func NewFakeIdP() *FakeIdP {
 	f.Server = httptest.NewUnstartedServer(http.HandlerFunc(func(w http.ResponseWriter, r *http.Request) {
 		r.ParseForm()
 		c := IdPCall{Endpoint: "other", Form: r.Form, Header: r.Header.Clone()}
+		lp := strings.ToLower(r.URL.Path)
 		switch {
-		case strings.HasSuffix(r.URL.Path, "/token"):
+		case strings.HasSuffix(lp, "/token"):
 			c.Endpoint, c.Grant = "token", r.Form.Get("grant_type")
-		case strings.HasSuffix(r.URL.Path, "/userinfo"):
+		case strings.HasSuffix(lp, "/userinfo"):
 			c.Endpoint = "userinfo"
-		case strings.HasSuffix(r.URL.Path, "/introspect"), strings.HasSuffix(r.URL.Path, "/tokeninfo"):
+		case strings.HasSuffix(lp, "/introspect"), strings.HasSuffix(lp, "/tokeninfo"):
 			c.Endpoint = "introspect"
-		case strings.HasSuffix(r.URL.Path, "/revoke"):
+		case strings.HasSuffix(lp, "/revoke"):
 			c.Endpoint = "revoke"
 		}
 		f.mu.Lock()
